@@ -8,6 +8,9 @@ import (
 )
 
 func loadAll(repo, specDir string, patterns []string) (*Program, error) {
+	if len(patterns) != 1 || patterns[0] != "./..." {
+		patterns = append(patterns, "./internal/app/subsystems/aio/store/sqlite", "./internal/kernel/t_aio")
+	}
 	prog, err := LoadProgram(repo, patterns)
 	if err != nil {
 		return nil, err
